@@ -251,19 +251,28 @@ make_cert(EVP_PKEY *pk, size_t *len)
 	return out;
 }
 
+/*
+ * Feed a DER object in chunks (exact-size heap block). Like a careful caller
+ * we stop pushing once the decoder reports a definite error: the T0 decoders
+ * resume *after* the failing instruction when pushed again (observed: null
+ * `ip` dereference in br_pkey_decoder_run when data is pushed after an error);
+ * that behaviour belongs to C05/C07, not to this property.
+ */
 static void
-push_chunks(vf_rng *r, void (*push)(void *, const void *, size_t), void *ctx,
-	const unsigned char *buf, size_t len)
+push_chunks(vf_rng *r, void (*push)(void *, const void *, size_t), int (*lasterr)(void *),
+	void *ctx, const unsigned char *buf, size_t len)
 {
-	/* data lives in an exact-size heap block */
 	unsigned char *in = vf_dup(buf, len);
 	size_t off = 0;
 	int mode = vf_below(r, 3);
 	while (off < len) {
 		size_t k = mode == 0 ? len : mode == 1 ? vf_range(r, 1, 16) : vf_range(r, 1, 300);
+		int e;
 		if (k > len - off) k = len - off;
 		push(ctx, in + off, k);
 		off += k;
+		e = lasterr(ctx);
+		if (e != 0 && e != BR_ERR_X509_TRUNCATED) break;
 	}
 	free(in);
 }
@@ -271,6 +280,9 @@ push_chunks(vf_rng *r, void (*push)(void *, const void *, size_t), void *ctx,
 static void skey_push(void *c, const void *d, size_t n) { br_skey_decoder_push(c, d, n); }
 static void pkey_push(void *c, const void *d, size_t n) { br_pkey_decoder_push(c, d, n); }
 static void x509_push(void *c, const void *d, size_t n) { br_x509_decoder_push(c, d, n); }
+static int skey_err(void *c) { return br_skey_decoder_last_error(c); }
+static int pkey_err(void *c) { return br_pkey_decoder_last_error(c); }
+static int x509_err(void *c) { return br_x509_decoder_last_error(c); }
 
 /* ------------------------------------------------------------------ */
 /* RSA */
@@ -294,7 +306,7 @@ skey_check_rsa(vf_rng *r, const rsa_case *c, const unsigned char *der, size_t le
 	const br_rsa_private_key *k;
 	char key[128];
 	br_skey_decoder_init(dc);
-	push_chunks(r, skey_push, dc, der, len);
+	push_chunks(r, skey_push, skey_err, dc, der, len);
 	vf_stat("cmp_skey_rsa", 1);
 	k = br_skey_decoder_get_rsa(dc);
 	if (br_skey_decoder_last_error(dc) != 0 || br_skey_decoder_key_type(dc) != BR_KEYTYPE_RSA || k == NULL) {
@@ -335,7 +347,7 @@ pkey_check_rsa(vf_rng *r, RSA *rk, const char *cs)
 	rlen = i2d_RSAPublicKey(rk, &raw);
 	HASSERT(slen > 0 && rlen > 0, "i2d-pub");
 	br_x509_decoder_init(xc, 0, 0, 0, 0);
-	push_chunks(r, x509_push, xc, cert, clen);
+	push_chunks(r, x509_push, x509_err, xc, cert, clen);
 	ref = br_x509_decoder_get_pkey(xc);
 	if (ref == NULL || ref->key_type != BR_KEYTYPE_RSA) {
 		vf_stat("unjudged_x509_rejects_cert", 1);
@@ -349,18 +361,18 @@ pkey_check_rsa(vf_rng *r, RSA *rk, const char *cs)
 		const br_rsa_public_key *k;
 		int err;
 		br_pkey_decoder_init(dc);
-		push_chunks(r, pkey_push, dc, in, inlen);
+		push_chunks(r, pkey_push, pkey_err, dc, in, inlen);
 		vf_stat(i ? "cmp_pkey_rsa_raw" : "cmp_pkey_rsa_spki", 1);
 		err = br_pkey_decoder_last_error(dc);
 		k = br_pkey_decoder_get_rsa(dc);
 		if (err != 0 || k == NULL) {
-			if (i == 1 && err == BR_ERR_X509_UNEXPECTED) {
+			if (i == 1) {
 				vf_viol("C18:pkey:raw-rsa-form",
-					"br_pkey_decoder rejects the raw RSAPublicKey DER form (BR_ERR_X509_UNEXPECTED) that bearssl_x509.h documents as recognised",
+					"br_pkey_decoder rejects the raw RSAPublicKey DER form that bearssl_x509.h documents as recognised (SPKI form of the same key is checked separately)",
 					"%s err=%d der=%s", cs, err, vf_hexs(in, inlen));
 			} else {
-				vf_viol(i ? "C18:pkey:raw-rsa-rejected-other" : "C18:pkey:rsa-spki-rejected",
-					"br_pkey_decoder rejects an RSA public key the certificate decoder accepts",
+				vf_viol("C18:pkey:rsa-spki-rejected",
+					"br_pkey_decoder rejects an RSA SubjectPublicKeyInfo the certificate decoder accepts",
 					"%s err=%d type=%d der=%s", cs, err, br_pkey_decoder_key_type(dc), vf_hexs(in, inlen));
 			}
 		} else if (k->nlen != ref->key.rsa.nlen || k->elen != ref->key.rsa.elen
@@ -595,7 +607,7 @@ skey_check_ec(vf_rng *r, int curve, blob x, size_t exact_len,
 	const br_ec_private_key *k;
 	char key[128];
 	br_skey_decoder_init(dc);
-	push_chunks(r, skey_push, dc, der, len);
+	push_chunks(r, skey_push, skey_err, dc, der, len);
 	vf_stat("cmp_skey_ec", 1);
 	k = br_skey_decoder_get_ec(dc);
 	if (br_skey_decoder_last_error(dc) != 0 || br_skey_decoder_key_type(dc) != BR_KEYTYPE_EC || k == NULL) {
@@ -629,7 +641,7 @@ pkey_check_ec(vf_rng *r, EC_KEY *ek, int ci, const char *cs)
 	slen = i2d_PUBKEY(pk, &spki);
 	HASSERT(slen > 0, "i2d-pub-ec");
 	br_x509_decoder_init(xc, 0, 0, 0, 0);
-	push_chunks(r, x509_push, xc, cert, clen);
+	push_chunks(r, x509_push, x509_err, xc, cert, clen);
 	ref = br_x509_decoder_get_pkey(xc);
 	if (ref == NULL || ref->key_type != BR_KEYTYPE_EC) {
 		vf_stat("unjudged_x509_rejects_cert", 1);
@@ -640,7 +652,7 @@ pkey_check_ec(vf_rng *r, EC_KEY *ek, int ci, const char *cs)
 	HASSERT(ref->key.ec.curve == CURVES[ci].curve && ref->key.ec.qlen == CURVES[ci].qlen
 		&& ref->key.ec.q[0] == 0x04, "x509-ec-ref");
 	br_pkey_decoder_init(dc);
-	push_chunks(r, pkey_push, dc, spki, (size_t)slen);
+	push_chunks(r, pkey_push, pkey_err, dc, spki, (size_t)slen);
 	vf_stat("cmp_pkey_ec_spki", 1);
 	err = br_pkey_decoder_last_error(dc);
 	k = br_pkey_decoder_get_ec(dc);
